@@ -223,7 +223,8 @@ def run(ck):
           'iter_residues yields the node tuples of the residues in sorted residue-graph order', key='MPT-whole-residue|iter_residues')
     body = [s_ for s_ in ir.body if not (isinstance(s_, ast.Expr) and isinstance(s_.value, ast.Constant))]
     stores = [n for n in ast.walk(ir) if isinstance(n, ast.Attribute) and isinstance(n.ctx, ast.Store)]
-    ck.ob('MPT-whole-residue', mol.loc(ir), len(body) == 2 and u(body[0]) == 'residue_graph = graph_utils.make_residue_graph(self)' and isinstance(body[1], ast.Return) and not stores,
+    ck.ob('MPT-whole-residue', mol.loc(ir), len(body) >= 2 and u(body[0]) == 'residue_graph = graph_utils.make_residue_graph(self)' and isinstance(body[-1], ast.Return) and not stores and
+          all(isinstance(s_, ast.Assign) and all(isinstance(t_, ast.Name) for t_ in s_.targets) for s_ in body[1:-1]),
           'iter_residues recomputes the residues from the current node attributes on every call (no cache that residue edits could leave stale)', key='MPT-whole-residue|no-cache')
     # reading a per-residue sequence back: one value per residue, in residue order, nothing skipped
     sfr = mod.func('sequence_from_residues')
